@@ -57,6 +57,9 @@ def tasks(tier, seed):
     # an existing controller switched to another alpha (params.alpha + set_G_inv on every step) after it has been used
     for (M, L, alpha, first) in (((2, 3, 1e-1, 1e-4), (1, 4, 1e-3, 0.5)) if quick else ((2, 3, 1e-1, 1e-4), (1, 4, 1e-3, 0.5), (2, 4, 1e-6, 1e-2), (3, 2, 0.5, 1e-8))):
         T.append(('iteration', M, L, alpha, first))
+    # a description dictionary used for an earlier controller (other alpha) and handed to the constructor again
+    for (M, L, alpha, first) in (((2, 3, 1e-1, 1e-4), (2, 2, 1e-4, 1e-1)) if quick else ((2, 3, 1e-1, 1e-4), (2, 2, 1e-4, 1e-1), (1, 4, 1e-3, 0.5), (3, 3, 1e-2, 1e-6))):
+        T.append(('iteration', M, L, alpha, ['shared-description', first]))
     return T
 
 
@@ -220,12 +223,16 @@ class FPDProb(PDProb):
         super().__init__(lam, dtype=np.dtype('complex128'))
 
 
-def build_ctl(M, L, alpha, lam, dt, float_mode=False):
+def build_ctl(M, L, alpha, lam, dt, float_mode=False, desc=None):
     from pySDC.implementations.controller_classes.controller_ParaDiag_nonMPI import controller_ParaDiag_nonMPI
     from pySDC.implementations.sweeper_classes.ParaDiagSweepers import QDiagonalization
 
     d = dict(problem_class=FPDProb if float_mode else PDProb, problem_params={'lam': lam}, sweeper_class=QDiagonalization,
              sweeper_params={'num_nodes': M, 'quad_type': 'RADAU-RIGHT'}, level_params={'dt': dt, 'restol': -1}, step_params={'maxiter': 1})
+    if desc is not None:  # (a description dictionary shared by several controllers: filled on first use, handed to the constructor as it is afterwards)
+        if not desc:
+            desc.update(d)
+        d = desc
     return controller_ParaDiag_nonMPI(L, {'logger_level': 50, 'dump_setup': False, 'alpha': alpha, 'average_jacobian': False}, d)
 
 
@@ -360,17 +367,23 @@ def reconfigure(ctl, alpha):
 
 def iteration_case(rep, M, L, alpha, first=None):
     """first: the controller is built (and used for one iteration) with this alpha, then reconfigured to alpha; the judged iteration is the next one"""
-    name = f'iteration/M{M}/L{L}/alpha{alpha:g}' + (f'/after-alpha{first:g}' if first is not None else '')
+    name = f'iteration/M{M}/L{L}/alpha{alpha:g}' + ('' if first is None else f'/description-used-before-with-alpha{first[1]:g}' if isinstance(first, (list, tuple)) else f'/after-alpha{first:g}')
     lam, dt = -1.5, 0.2
     u0v = z3.Real('u0')
     Uv = [[z3.Real(f'U_{l}_{m}') for m in range(M)] for l in range(L)]
     c = Ctx()
     Ctx.cur = c
     try:
-        ctl = build_ctl(M, L, alpha if first is None else first, lam, dt)
-        if first is not None:
-            one_iteration(ctl, SymReal(u0v), [[SymReal(v) for v in row] for row in Uv])
-            reconfigure(ctl, alpha)
+        if isinstance(first, (list, tuple)):  # ['shared-description', alpha1]: another controller (other alpha) was built from the SAME description dictionary before
+            shared = {}
+            other = build_ctl(M, L, first[1], lam, dt, desc=shared)
+            one_iteration(other, SymReal(u0v), [[SymReal(v) for v in row] for row in Uv])
+            ctl = build_ctl(M, L, alpha, lam, dt, desc=shared)
+        else:
+            ctl = build_ctl(M, L, alpha if first is None else first, lam, dt)
+            if first is not None:
+                one_iteration(ctl, SymReal(u0v), [[SymReal(v) for v in row] for row in Uv])
+                reconfigure(ctl, alpha)
         out = one_iteration(ctl, SymReal(u0v), [[SymReal(v) for v in row] for row in Uv])
         Q = np.array(ctl.MS[0].levels[0].sweep.coll.Qmat)
     finally:
@@ -402,7 +415,7 @@ def iteration_case(rep, M, L, alpha, first=None):
         env = {str(v): float(model_value(m_, v)) for v in allv}
         dev = float_iteration(M, L, alpha, lam, dt, env, first)
         if dev > 1e-10 + 1e-13 * condJ:
-            rep.violation(f'{PID}/iteration' + ('/reconfigured-alpha' if first is not None else ''), f'{name}: real it_ParaDiag deviates from the preconditioned all-at-once iteration by {dev:.3e}', {'task': ['iteration', M, L, alpha, first], 'env': env, 'deviation': dev})
+            rep.violation(f'{PID}/iteration' + ('' if first is None else '/description-reused' if isinstance(first, (list, tuple)) else '/reconfigured-alpha'), f'{name}: real it_ParaDiag deviates from the preconditioned all-at-once iteration by {dev:.3e}', {'task': ['iteration', M, L, alpha, first], 'env': env, 'deviation': dev})
         else:
             rep.unreproduced(name, {'env': env, 'dev': dev})
     # fixed point: the sequential collocation solution (defined in the query) is left unchanged
@@ -432,11 +445,16 @@ def iteration_case(rep, M, L, alpha, first=None):
 
 
 def float_iteration(M, L, alpha, lam, dt, env, first=None):
-    ctl = build_ctl(M, L, alpha if first is None else first, lam, dt, float_mode=True)
     U = [[env[f'U_{l}_{m}'] for m in range(M)] for l in range(L)]
-    if first is not None:
-        one_iteration(ctl, env['u0'], U)
-        reconfigure(ctl, alpha)
+    if isinstance(first, (list, tuple)):
+        shared = {}
+        one_iteration(build_ctl(M, L, first[1], lam, dt, float_mode=True, desc=shared), env['u0'], U)
+        ctl = build_ctl(M, L, alpha, lam, dt, float_mode=True, desc=shared)
+    else:
+        ctl = build_ctl(M, L, alpha if first is None else first, lam, dt, float_mode=True)
+        if first is not None:
+            one_iteration(ctl, env['u0'], U)
+            reconfigure(ctl, alpha)
     out = one_iteration(ctl, env['u0'], U)
     got = np.array([[complex(x) for x in row] for row in out])
     Q = ctl.MS[0].levels[0].sweep.coll.Qmat[1:, 1:]
